@@ -16,6 +16,7 @@ import (
 	"time"
 
 	"github.com/openGemini/openGemini/engine/immutable"
+	"github.com/openGemini/openGemini/engine/index/tsi"
 	"github.com/openGemini/openGemini/lib/cpu"
 	kit "github.com/openGemini/openGemini/lib/verifkit"
 	"github.com/openGemini/openGemini/lib/verifkit/crashfs"
@@ -389,6 +390,9 @@ var c04FileGC int64
 
 // c04Body runs one execution of a scenario under x; returns violations (kind, detail).
 var c04ExecSeq int
+
+// c04AfterPreload: diagnostic hook of the determinism probe.
+var c04AfterPreload func(v *vShard)
 var c04KeepDir bool
 
 func c04Body(sc c04Scenario, baseDir string, x *sched.Exec) (kind, detail string, fatal bool) {
@@ -416,6 +420,9 @@ func c04Body(sc c04Scenario, baseDir string, x *sched.Exec) (kind, detail string
 		if wi := vWriteIndex(op); wi >= 0 {
 			l.preload(i+1, vWriteMenu[wi].Gen(i+1))
 		}
+	}
+	if c04AfterPreload != nil {
+		c04AfterPreload(v)
 	}
 	teardown := func() {}
 	if sc.Setup != nil {
@@ -559,6 +566,16 @@ func c04Main(t *testing.T, rep *kit.Report) {
 			}
 			var base []string
 			baseListing := ""
+			c04AfterPreload = func(v *vShard) {
+				idx, _ := v.sh.indexBuilder.GetPrimaryIndex().(*tsi.MergeSetIndex)
+				out := ""
+				for _, h := range vHosts {
+					r := vRow(vPoint{K: vKey{"m", h, vT(1)}, V: map[string]vVal{"f": vFloat(1)}})
+					sid, err := idx.GetSeriesIdBySeriesKey(r.IndexKey)
+					out += fmt.Sprintf(" %s=%d(%v)", h, sid, err)
+				}
+				fmt.Printf("PROBE exec %d sids:%s layout %s\n", c04ExecSeq, out, v.Layout())
+			}
 			for i := 0; i < cnt; i++ {
 				e := c04NewExplorer(sc, 0, 1)
 				c04KeepDir = true
